@@ -207,6 +207,11 @@ impl<'a> FmtVisitor<'a> {
                 self.push_vertical_spaces(newline_count);
                 status.cur_line += newline_count;
                 status.line_start = offset + lf_count + crlf_count * 2;
+                // The slice is blank, but not necessarily made of line breaks only: it may hold
+                // white space of several bytes (U+2028, U+0085, ...). Do not stop inside one.
+                while !snippet.is_char_boundary(status.line_start) {
+                    status.line_start += 1;
+                }
             } else {
                 // 3: code which we failed to format or which is not within file-lines range.
                 self.process_missing_code(&mut status, snippet, subslice, offset, file_name);
